@@ -39,11 +39,12 @@ WEIGHTED = ["wmedian", "wmad", "wstd"]
 ESTIMATORS = LOC + SCALE + ["mse"]
 SMOOTHERS = ["rollmed", "kaiser", "savgol", "savgol_w"]
 HEAVY = ["biloc", "bivar", "qn"]          # n <= 60 (TLC cost)
+MODE_CAP = 40                             # modal_location: kernel matrix over the distinct values
 
 REQUIRE_CLAUSES = list(
     [f"{e}_noerr" for e in ESTIMATORS + SMOOTHERS] + [f"{e}_range" for e in LOC + ["rollmed", "kaiser"]]
     + [f"{e}_{c}" for e in SCALE for c in ("nonneg", "zero_on_constant", "formula")]
-    + ["biloc_formula", "mse_formula", "mse_nonneg", "wmedian_halfweight", "wmedian_equal_weights_is_median",
+    + ["biloc_formula", "mode_formula", "mse_formula", "mse_nonneg", "wmedian_halfweight", "wmedian_equal_weights_is_median",
        "wmedian_midpoint", "pair_noerr", "loc_shift_exact", "mode_shift", "biloc_shift", "scale_shift_invariant",
        "scale_proportional", "rollmed_windowed_median", "wing_spec", "pad_mirror", "guess_bounds"]
     + [f"{e}_{c}" for e in SMOOTHERS for c in ("one_finite_per_input", "constant")])
@@ -293,6 +294,35 @@ def gen_values(rng, n, style, U=1024):
 
 
 STYLES = ["normal", "normal", "ties", "repeats", "outlier", "outlier", "allequal", "tiny", "symmetric", "band"]
+# heavy ties where the multiplicity of a value decides where the density peaks (modal_location)
+TIE_STYLES = ["rep_vs_cluster", "two_clusters", "pairs", "dup_extreme"]
+
+
+def gen_tied_values(rng, n, style, U=1024):
+    n = max(n, 4)
+    step = rng.choice([U // 16, U // 8, U // 4])
+    base = rng.randint(-2 * U, 2 * U)
+    if style == "rep_vs_cluster":      # one value repeated k times against a looser cluster of distinct values
+        k = rng.randint(2, max(2, n // 2))
+        far = base + rng.choice([-1, 1]) * rng.randint(6, 14) * step
+        cluster = [far + j * step + rng.randint(-step // 4, step // 4) for j in range(n - k)]
+        vs = [base] * k + cluster
+    elif style == "two_clusters":      # two tied clusters of different multiplicity (+ a few stragglers)
+        k1 = rng.randint(1, n - 2)
+        k2 = rng.randint(1, n - 1 - k1)
+        other = base + rng.choice([-1, 1]) * rng.randint(3, 20) * step
+        vs = [base] * k1 + [other] * k2 + [base + rng.randint(-30, 30) * step for _ in range(n - k1 - k2)]
+    elif style == "pairs":             # all values in pairs (one of them a triple or quadruple, sometimes)
+        vals = [base + rng.randint(-12, 12) * step for _ in range(n // 2)]
+        vs = [x for x in vals for _ in (0, 1)]
+        if rng.random() < 0.6:
+            vs += [rng.choice(vals)] * rng.randint(1, 2)
+    else:                              # duplicates of the extreme value
+        vs = [base + int(round(rng.gauss(0, 4 * step))) for _ in range(n - 2)]
+        ext = max(vs) + rng.randint(1, 8) * step if rng.random() < 0.5 else min(vs) - rng.randint(1, 8) * step
+        vs += [ext] * rng.randint(2, max(2, n // 3))
+    rng.shuffle(vs)
+    return vs
 
 
 def gen_weights(rng, v, style):
@@ -391,6 +421,9 @@ def random_estimator_inputs(ctx, est, count, cap):
         n = pick_n(rng, cap)
         style = rng.choice(STYLES)
         v = gen_values(rng, n, style)
+        if est == "mode" and rng.random() < 0.5:
+            v = gen_tied_values(rng, min(n, 24), rng.choice(TIE_STYLES))
+            n = len(v)
         nan = gen_nan(rng, n)
         kw = {"nan": nan}
         if est in WEIGHTED and rng.random() < (0.3 if est != "wstd" else 0.1):
@@ -539,6 +572,11 @@ def structured_inputs():
         out.append(mk("biloc", g([-2, -1, 0, 1, 2, p])))
         out.append(mk("bivar", g([-2, -1, 0, 1, 2, p])))
     out.append(mk("biloc", g([0, 1, 2, 8])))
+    # seeded change C19-4 (KDE fitted on the distinct values only): multiplicity decides the density peak
+    out.append(mk("mode", [0] * 7 + [18, 20, 21, 22, 23, 24, 26, 50], U=20))
+    out.append(mk("mode", g([-1, 2, 2, 2])))
+    out.append(mk("mode", g([0, 0, 0, 3, 3.25, 3.5, 3.75])))
+    out.append(mk("mode", g([5, 5, 1, 1, 1, 9, 9]), kind="shift", c=777))
     out.append(mk("biloc", [0, 0, 0, 1]))                         # MAD 0: epsilon radius, points at the estimate
     out.append(mk("biloc", g([0, 0, 0, 5])))
     # single values and constant data through every estimator
@@ -636,6 +674,20 @@ def _count_boundaries(ctx, rec):
             ctx.bump("rescaling_pairs")
             if rec["fn"] < 0:
                 ctx.bump("rescaling_negative_factor")
+        if est == "mode" and n >= 3:
+            from collections import Counter
+            cnt = Counter(kept)
+            if len(cnt) >= 2 and max(cnt.values()) >= 2:
+                ctx.bump("mode_repeated_values")
+                top = cnt.most_common(2)
+                if len(cnt) >= 3 and top[0][1] >= 3:
+                    ctx.bump("mode_value_repeated_3x_among_3_distinct")
+                if top[0][1] > top[1][1] >= 2:
+                    ctx.bump("mode_two_tied_clusters_unequal_multiplicity")
+                if cnt[max(cnt)] >= 2 or cnt[min(cnt)] >= 2:
+                    ctx.bump("mode_duplicated_extreme")
+                if all(c >= 2 for c in cnt.values()):
+                    ctx.bump("mode_all_values_repeated")
         if est == "qn" and n in (10, 11):
             ctx.bump("qn_factor_boundary_n_10_11")
     elif est in SMOOTHERS or est == "wing":
@@ -672,7 +724,7 @@ def run(ctx: Ctx):
     if only:
         REQUIRE_CLAUSES[:] = []
         ctx.notes["restricted_to"] = sorted(only)
-    fam_ops = {"wmed": {"wmedian", "wmad"}, "est": {"mad", "iqr", "gapper", "qn", "mse", "wstd"},
+    fam_ops = {"mode": {"mode"}, "wmed": {"wmedian", "wmad"}, "est": {"mad", "iqr", "gapper", "qn", "mse", "wstd"},
                "bw": {"biloc", "bivar"}, "smooth": {"rollmed", "pad"}, "wing": {"wing"}}
     wanted = lambda est: not only or est in only
     # ---------------- direction 1
@@ -682,6 +734,7 @@ def run(ctx: Ctx):
                   ("est", 4, [0, 1, 3], [1, 2], 4, "mad/iqr/gapper/qn/mse/wstd: length <= 4 over {0,1/4,3/4}, single+shift+scale"),
                   ("bw", 4, [0, 1, 2, 8], [1], 1, "biweight location/midvariance: length <= 4 over {0,1,2,8}"),
                   ("bw", 3, [0, 1, 2, 3], [1], 1024, "biweights: length <= 3 over {0..3}/1024 (epsilon radius)"),
+                  ("mode", 5, [0, 1, 2, 6], [1], 1, "modal_location: all vectors of length <= 5 over {0,1,2,6} (repeats), single + shift"),
                   ("smooth", 6, [0, 1, 2], [1], 1, "rolling median / padding: all signals of length <= 6 over {0,1,2} x 13 widths"),
                   ("smooth", 9, [0, 1], [1], 1, "rolling median: all binary signals of length <= 9 x 13 widths"),
                   ("wing", 40, [0], [1], 1, "_width2wing: lengths 1..40 x 18 widths (valid and invalid)")]
@@ -691,6 +744,7 @@ def run(ctx: Ctx):
                   ("est", 3, [0, 1, 3], [1, 2], 4, "mad/iqr/gapper/qn/mse/wstd: length <= 3 over {0,1/4,3/4}, single+shift+scale"),
                   ("bw", 4, [0, 1, 2, 8], [1], 1, "biweight location/midvariance: length <= 4 over {0,1,2,8}"),
                   ("bw", 3, [0, 1, 2, 3], [1], 1024, "biweights: length <= 3 over {0..3}/1024 (epsilon radius)"),
+                  ("mode", 4, [0, 1, 2, 6], [1], 1, "modal_location: all vectors of length <= 4 over {0,1,2,6} (repeats), single + shift"),
                   ("smooth", 5, [0, 1, 2], [1], 1, "rolling median / padding: all signals of length <= 5 over {0,1,2} x 13 widths"),
                   ("smooth", 8, [0, 1], [1], 1, "rolling median: all binary signals of length <= 8 x 13 widths"),
                   ("wing", 24, [0], [1], 1, "_width2wing: lengths 1..24 x 18 widths (valid and invalid)")]
@@ -717,7 +771,7 @@ def run(ctx: Ctx):
             "biloc": 300, "bivar": 200, "qn": 110}
     for est, cnt in plan.items():
         if wanted(est):
-            inputs += random_estimator_inputs(ctx, est, cnt * f, 60 if est in HEAVY else 400)
+            inputs += random_estimator_inputs(ctx, est, cnt * f, 60 if est in HEAVY else MODE_CAP if est == "mode" else 400)
     for est, cnt in {"rollmed": 300, "kaiser": 250, "savgol": 250, "savgol_w": 250}.items():
         if wanted(est):
             inputs += random_smoother_inputs(ctx, est, cnt * f)
